@@ -24,8 +24,9 @@ STUB = """(* STUB written by pv/genops.py: the emitted code could not be lowered
    Empty tables: the non-vacuity lemma of Proofs/EmitTableP.v fails on purpose. *)
 From Coq Require Import String.
 From PVGen Require Import EmitOps.
-Definition corpus_schema : schema := [].
+Definition schema_plain : schema := [].
 Definition emitted_plain : list erow := [].
+Definition schema_keep : schema := [].
 Definition emitted_keep : list erow := [].
 """
 
@@ -99,7 +100,8 @@ def regen(gb):
             rust_of = {n: gb.schema.types[n]['rust'] for n in order}
             tables = {}
             for cfg in OPS_CONFIGS:
-                tables[cfg], stats[cfg] = eo.lower_config(gb.emitted[cfg], cfg, rust_of, order)
+                names, rows, stats[cfg] = eo.lower_config(gb.emitted[cfg], cfg, rust_of, order)
+                tables[cfg] = (names, rows)
             text = eo.coq_file(schema_txt, tables, dg)
         except (eo.LowerError, eo.ParseError, KeyError, OSError) as e:
             _write(OPS_V, STUB % str(e).replace('*)', '* )')[:300])
